@@ -360,8 +360,23 @@ def gc_pass(w, db, sched, emit):
           'specs': lambda: w.m_endpoints.garbage_collect(w.ep_dir)}[db]
     sched = {str(k): [(e, [str(x) for x in a]) for e, a in v] for k, v in sched.items()}
 
-    def env(evs):
+    def env(evs, in_pass=True):
+        # The model's pass and the real one need not visit the entries in the same
+        # order, so the guards of Owners.tla for what the environment may do during
+        # a pass are enforced again on the REAL state: the owner that appears holds
+        # nothing (a new container), entries are created by owners that exist.
+        # An action whose guard does not hold here is dropped.
         for ev, a in evs:
+            post = w.project()
+            if ev == 'OwnerAppears' and (
+                    a[0] in post['live'] or
+                    (in_pass and any(p[1] == a[0]
+                                     for p in post['vips'] + post['rules'] + post['specs']))):
+                continue
+            if ev == 'OwnerDisappears' and a[0] not in post['live']:
+                continue
+            if in_pass and ev in ('VipAlloc', 'RuleCreate', 'SpecCreate') and a[0] not in post['live']:
+                continue
             emit(ev, a, w.apply(ev, a))
     w.excname = ''
     emit('GcBegin', [db], 'ok')
@@ -409,7 +424,7 @@ def gc_pass(w, db, sched, emit):
             p.stop()
     emit('GcEnd', [db], res)
     for k in sorted(sched, key=int):
-        env(sched[k])
+        env(sched[k], in_pass=False)
 
 
 def replay(history, owners=('o1', 'o2', 'o3', 'o4', 'o5', 'o6')):
